@@ -178,6 +178,10 @@ Proof.
     + intros x p t. split; [discriminate|]. intros [al [[] _]].
     + intros x t. split; [intros []|]. intros [al [[] _]].
     + intros n. constructor.
+    + intros n x. destruct (is4 x); reflexivity.
+    + intros n x. destruct (is6 x); reflexivity.
+    + intros n. constructor.
+    + intros n. constructor.
   - destruct HI as [Hnd Hex]. cbn in Hnd. inversion Hnd as [|? ? Hn Hd]; subst.
     assert (HI' : Inv {| s_pools := ps; allocated := l |}).
     { split; [exact Hd|]. intros e1 e2 x H1 H2. apply Hex; right; assumption. }
@@ -231,17 +235,28 @@ Lemma filter_map_fst {A B} (f : A -> bool) (l : list (A * B)) :
   map fst (filter (fun e => f (fst e)) l) = filter f (map fst l).
 Proof. induction l as [|[x y] l IH]; [reflexivity|]. cbn. destruct (f x); cbn; rewrite IH; reflexivity. Qed.
 
+(* len of a family map = number of distinct addresses of that family in use *)
+Lemma len_family_map (l : list (ip * Z)) a n f :
+  NoDup (map fst l) ->
+  (forall x, aget ip_eqb x l = if fam_eqb (ip_fam x) f then nz (users a n x) else None) ->
+  Z.of_nat (length l) = assigned a n f.
+Proof.
+  intros Hnd Hc. unfold assigned. f_equal. rewrite <- (map_length fst).
+  apply Permutation_length. apply NoDup_Permutation; [exact Hnd|apply NoDup_filter; apply ips_in_use_NoDup|].
+  intros x. rewrite filter_In, ips_in_use_spec, <- users_pos_iff.
+  rewrite (In_keys_aget ip_eqb ip_eqb_eq), Hc. unfold nz.
+  pose proof (users_nonneg a n x). destruct (fam_eqb (ip_fam x) f).
+  - destruct (users a n x =? 0)%Z eqn:E.
+    + apply Z.eqb_eq in E. split; [congruence|lia].
+    + apply Z.eqb_neq in E. split; [intros _; split; [lia|reflexivity]|discriminate].
+  - split; [congruence|intros [_ H0]; discriminate].
+Qed.
+
 Theorem m_len_fam_eq m n f : MCoh m -> m_len_fam m n f = assigned (abs m) n f.
 Proof.
-  intros HC. unfold m_len_fam, assigned. f_equal.
-  rewrite <- (map_length fst), (filter_map_fst (fun x => fam_eqb (ip_fam x) f)).
-  apply Permutation_length. apply Perm_filter.
-  apply NoDup_Permutation; [apply (coh_use_keys m HC)|apply ips_in_use_NoDup|].
-  intros x. rewrite ips_in_use_spec, <- users_pos_iff.
-  rewrite (In_keys_aget ip_eqb ip_eqb_eq). fold (count m n x). rewrite (coh_count m HC). unfold nz.
-  pose proof (users_nonneg (abs m) n x). destruct (users (abs m) n x =? 0)%Z eqn:E.
-  - apply Z.eqb_eq in E. split; [congruence|lia].
-  - apply Z.eqb_neq in E. split; [lia|discriminate].
+  intros HC. unfold m_len_fam. destruct f.
+  - apply len_family_map; [apply (coh_use4_keys m HC)|apply (coh_count4 m HC)].
+  - apply len_family_map; [apply (coh_use6_keys m HC)|apply (coh_count6 m HC)].
 Qed.
 
 Theorem m_counters_eq m n : MCoh m -> m_counters_for m n = counters_for (abs m) n.
@@ -300,7 +315,7 @@ Lemma sharing_maps_witness :
   let m := m_run sharing_ops m_init in
   key_of m ex_ip = Some {| sharing := 7; backend := 0 |} /\
   owner m ex_ip p80 = Some 1 /\ owner m ex_ip p443 = Some 2 /\
-  count m 1 ex_ip = Some 2%Z /\ m_len_fam m 1 F4 = 1%Z /\
+  count m 1 ex_ip = Some 2%Z /\ aget ip_eqb ex_ip (use4_of m 1) = Some 2%Z /\ use6_of m 1 = [] /\ m_len_fam m 1 F4 = 1%Z /\
   let m2 := m_run [OUnassign 1; OAssign 2 (ex_req [p443] 9) [ex_ip];
                    OSetPools {| by_name := [ex_pool2]; by_ns := []; by_sel := [] |}] m in
   key_of m2 ex_ip = Some {| sharing := 9; backend := 0 |} /\ owner m2 ex_ip p80 = None /\
